@@ -73,7 +73,7 @@ func FlowMod() *Mod[flow.Rule] {
 		return fmt.Sprint(t.Resource, "|", t.RelationStrategy, "|", t.RefResource, "|", t.StatIntervalInMs)
 	}
 	m.Valid = func(t *flow.Rule) bool {
-		if t.Resource == "" || t.Threshold < 0 || t.TokenCalculateStrategy < 0 || t.ControlBehavior < 0 {
+		if t.Resource == "" || math.IsNaN(t.Threshold) || t.Threshold < 0 || t.TokenCalculateStrategy < 0 || t.ControlBehavior < 0 {
 			return false
 		}
 		if t.RelationStrategy != flow.CurrentResource && t.RelationStrategy != flow.AssociatedResource {
@@ -541,7 +541,7 @@ func BrkCoq(t *cb.Rule, ri func(string) int64) string {
 }
 
 func BrkValid(t *cb.Rule) bool {
-	if t.Resource == "" || t.StatIntervalMs == 0 || t.RetryTimeoutMs == 0 || t.Threshold < 0 {
+	if t.Resource == "" || t.StatIntervalMs == 0 || t.RetryTimeoutMs == 0 || math.IsNaN(t.Threshold) || t.Threshold < 0 {
 		return false
 	}
 	if (t.Strategy == cb.SlowRequestRatio || t.Strategy == cb.ErrorRatio) && t.Threshold > 1 {
